@@ -24,13 +24,33 @@ use std::time::Instant;
 pub mod verif {
     //! Verification hooks (add-only): cache write observer, cache-off switch, schedule points.
     use super::{Bounds, Ply, TTEntry};
-    use std::sync::atomic::{AtomicBool, Ordering};
+    use std::sync::atomic::{AtomicBool, AtomicU64, Ordering};
     use std::sync::Mutex;
 
     /// One observed cache write: (key, score, depth, bound, best move, nodes, node budget, running flag).
     pub type Write = (u64, i16, u8, u8, Ply, u64, Option<u64>, bool);
     pub static TRACE: Mutex<Option<Vec<Write>>> = Mutex::new(None);
     pub static CACHE_OFF: AtomicBool = AtomicBool::new(false);
+    /// Number of loads of the running flag by the search (`Search::is_running`) since the harness reset it.
+    pub static LOADS: AtomicU64 = AtomicU64::new(0);
+    /// Number of clock readings by `Search::limits_exceeded` since the harness reset it.
+    pub static READS: AtomicU64 = AtomicU64::new(0);
+    /// Milliseconds added to every later clock reading (the harness makes the clock jump).
+    pub static SKEW_MS: AtomicU64 = AtomicU64::new(0);
+
+    pub fn flag_load() {
+        LOADS.fetch_add(1, Ordering::SeqCst);
+    }
+
+    /// Counts one clock reading and returns the start instant moved back by the current skew,
+    /// so that `start.elapsed()` reads `SKEW_MS` later.
+    pub fn clock_read(start: std::time::Instant) -> std::time::Instant {
+        READS.fetch_add(1, Ordering::SeqCst);
+        let skew = SKEW_MS.load(Ordering::SeqCst);
+        start
+            .checked_sub(std::time::Duration::from_millis(skew))
+            .unwrap_or(start)
+    }
 
     pub fn observe(key: u64, entry: &TTEntry, nodes: u64, budget: Option<u64>, running: bool) {
         if let Ok(mut guard) = TRACE.lock() {
@@ -337,7 +357,7 @@ impl Search {
                 },
                 self.info.nodes,
                 self.limits.nodes,
-                self.is_running(),
+                self.running.load(Ordering::Relaxed),
             );
             TRANSPOSITION_TABLE
                 .write()
@@ -513,7 +533,7 @@ impl Search {
                     },
                     self.info.nodes,
                     self.limits.nodes,
-                    self.is_running(),
+                    self.running.load(Ordering::Relaxed),
                 );
                 TRANSPOSITION_TABLE
                     .write()
@@ -563,7 +583,7 @@ impl Search {
             },
             self.info.nodes,
             self.limits.nodes,
-            self.is_running(),
+            self.running.load(Ordering::Relaxed),
         );
         TRANSPOSITION_TABLE
             .write()
@@ -672,12 +692,16 @@ impl Search {
             }
         }
         if let Some(movetime) = self.limits.movetime {
+            #[cfg(rce_verif)]
+            let start = verif::clock_read(start);
             if start.elapsed().as_millis() >= movetime {
                 self.running.store(false, Ordering::Relaxed);
                 return true;
             }
         }
 
+        #[cfg(rce_verif)]
+        let start = verif::clock_read(start);
         let duration = start.elapsed();
         let time_elapsed_in_ms = duration.as_millis();
         time_elapsed_in_ms >= self.limits.movetime.unwrap_or(Millisecond::MAX)
@@ -884,6 +908,8 @@ impl Search {
     /// let running = search.check_running();
     /// ```
     pub fn is_running(&self) -> bool {
+        #[cfg(rce_verif)]
+        verif::flag_load();
         self.running.load(Ordering::Relaxed)
     }
 }
